@@ -4,6 +4,7 @@ package raft
 // link(2) is atomic (it fails if the target name exists), which is the OS guarantee the protocol relies on.
 
 import (
+	"net"
 	"os"
 	"time"
 )
@@ -140,6 +141,69 @@ func VH_C20_SetIdentity() {
 	} else if err == nil && cid != 0 && nid != 0 {
 		vReach("set")
 		vAssert(c1 == cid && n1 == nid, "S-unset-identity-gets-set")
+	}
+	vReach("end")
+}
+
+type vListener struct{ closed bool }
+
+type vNetAddr struct{}
+
+func (vNetAddr) Network() string { return "ghost" }
+func (vNetAddr) String() string  { return "ghost:0" }
+
+func (l *vListener) Accept() (net.Conn, error) { return nil, vIOError{"accept"} }
+func (l *vListener) Close() error              { l.closed = true; return nil }
+func (l *vListener) Addr() net.Addr            { return vNetAddr{} }
+
+//verif:check C20 stubs=lockfs,rt,timers,valuefile,abslog reach=refused,serving-with-lock,end desc="Raft.Serve takes the storage directory's lock before it serves anything: if another instance holds it, Serve returns ErrLockExists with that instance's lock untouched, without starting the state loop or the FSM loop; otherwise the lock is held for as long as the state loop runs" bounds="directory locked by another instance or not; the serving path is followed until the state loop's first idle point"
+func VH_C20_Serve() {
+	r := vLoopNode(Follower)
+	dir := vDir
+	other := vBool("servedByAnotherInstance")
+	if other {
+		vAssert(lockDir(dir) == nil, "other-instance-locks")
+	}
+	held := vLDir[dir+"/lock"]
+	looped := false
+	vSetIdleHook(func() {
+		// the state loop is running and idle
+		looped = true
+		vAssert(!other, "V-state-loop-never-runs-on-a-directory-served-by-another-instance")
+		vAssert(vLockHeld(dir), "V-lock-held-while-serving")
+		vReach("serving-with-lock")
+		vStop()
+	})
+	err := r.Serve(&vListener{})
+	// only the refused path returns here
+	vReach("refused")
+	vAssert(other && err == ErrLockExists, "V-serve-refused-while-directory-is-served")
+	vAssert(!looped && vNumSpawned() == 0, "V-nothing-started-without-the-lock")
+	vAssert(vLDir[dir+"/lock"] == held && held != nil, "V-serving-instances-lock-survives")
+	vReach("end")
+}
+
+//verif:check C20,C10 stubs=env,valuefile,abslog,snapfs,restart reach=no-identity,opened,end desc="raft.New over the real openStorage on a ghost storage directory: a directory whose identity was never set is refused with ErrIdentityNotSet, otherwise the node carries exactly the stored cluster id, node id, term and vote" bounds="all 64-bit identity/term/vote values (identity unset = both zero); empty log, no snapshot"
+func VH_C20_New_identity() {
+	c0, n0 := vU64("stored.cid"), vU64("stored.nid")
+	vAssume(vOr(vAnd(c0 == 0, n0 == 0), vAnd(c0 != 0, n0 != 0))) // SetIdentity writes both or nothing
+	vDiskInit(".id", c0, n0)
+	t0, v0 := vU64("stored.term"), vU64("stored.vote")
+	vDiskInit(".term", t0, v0)
+	_, a := vNewLog(0)
+	vCrashedLog = a
+	opt := DefaultOptions()
+	opt.Logger = nil
+	r, err := New(opt, &vFSM{}, vDir)
+	if c0 == 0 {
+		vReach("no-identity")
+		vAssert(err == ErrIdentityNotSet && r == nil, "N-unset-identity-is-refused")
+	} else {
+		vReach("opened")
+		vAssert(err == nil && r != nil, "N-opens")
+		vAssert(r.cid == c0 && r.nid == n0, "N-node-carries-the-stored-identity")
+		vAssert(r.term == t0 && r.votedFor == v0, "N-node-carries-the-stored-term-and-vote")
+		vAssert(r.state == Follower && r.leader == 0, "N-starts-as-follower")
 	}
 	vReach("end")
 }
